@@ -67,6 +67,7 @@ type cfgOpts struct {
 	maxUEs     int  // the MSIN leaves room for this many consecutive subscribers
 	suffixBias bool // C02: last four IMSI digits just below 16 / 256 / 10000
 	smallPSI   bool // keep (last four digits + UE index) within 1..255 so that D10 is not in the way
+	preferMNC2 bool // C19: mostly 2-digit MNCs, so that scenarios complete on a tree that still has D18
 }
 
 // genConfig draws a configuration that is valid per the documentation: IMSI = MCC‖MNC‖MSIN
@@ -75,7 +76,11 @@ type cfgOpts struct {
 func genConfig(t *rapid.T, o cfgOpts) emuConfig {
 	var c emuConfig
 	c.MCC = fmt.Sprintf("%03d", rapid.IntRange(0, 999).Draw(t, "mcc"))
-	if rapid.Bool().Draw(t, "mnc3") {
+	mnc3 := rapid.Bool().Draw(t, "mnc3")
+	if o.preferMNC2 && rapid.IntRange(0, 2).Draw(t, "mnc2_bias") != 0 {
+		mnc3 = false
+	}
+	if mnc3 {
 		c.MNC = fmt.Sprintf("%03d", rapid.IntRange(0, 999).Draw(t, "mnc"))
 	} else {
 		c.MNC = fmt.Sprintf("%02d", rapid.IntRange(0, 99).Draw(t, "mnc"))
@@ -266,7 +271,12 @@ func genUEChoice(t *rapid.T, k int, taken map[uint64]bool) refamf.UEChoice {
 }
 
 func genNGSetupChoice(t *rapid.T) refamf.NGSetupChoice {
+	backup := ""
+	if rapid.IntRange(0, 3).Draw(t, "backup_amf") == 0 {
+		backup = drawPrintable(t, 1, 150, "backup_amf_name")
+	}
 	return refamf.NGSetupChoice{
+		BackupAMFName:    backup,
 		RelativeCapacity: rapid.IntRange(0, 255).Draw(t, "capacity"),
 		AMFRegion:        rapid.IntRange(0, 255).Draw(t, "region"),
 		AMFSet:           rapid.IntRange(0, 1000).Draw(t, "set"),
@@ -318,6 +328,9 @@ func configClasses(c emuConfig) []string {
 
 func scenarioClasses(sc refamf.Scenario) []string {
 	var cl []string
+	if sc.NGSetup.BackupAMFName != "" {
+		cl = append(cl, "opt:NGSetupResponse.BackupAMFName")
+	}
 	for _, u := range sc.UEs {
 		if u.AMFUEID >= 1<<32 {
 			cl = append(cl, "amf-id>=2^32")
